@@ -29,28 +29,8 @@ theorem read_total_csv : ReadTotalCsv { guards := true } := by
   · unfold readCsv
     exact readCsvRecs_noFault o _ _ _
   · intro df h
-    unfold readCsv readCsvRecs at h
-    cases hf : List.foldlM (csvStep { guards := true } o p.outIdx (resolveDialect o p (splitLines bytes)).2) {}
-        (records { delim := (resolveDialect o p (splitLines bytes)).1, trimWs := p.trimWs } p.filter
-          (splitLines bytes)) with
-    | error e => simp [hf, bind, Except.bind] at h
-    | ok st =>
-      simp only [hf, bind, Except.bind] at h
-      cases hv : isValid st.df with
-      | error e => simp [hv] at h
-      | ok v =>
-        simp only [hv] at h
-        split at h
-        · cases h
-        · next hc =>
-          simp only [pure, Except.pure, Except.ok.injEq] at h
-          subst h
-          simp only [Bool.or_eq_true, Bool.not_eq_eq_eq_not, Bool.not_true, not_or, Bool.not_eq_false,
-            Bool.not_eq_true] at hc
-          have hvalid : Valid st.df := by unfold Valid; rw [hv, hc.1]
-          refine ⟨hvalid, ?_, valid_equalInputs _ hvalid⟩
-          intro hnil
-          simp [hnil] at hc
+    unfold readCsv at h
+    exact readCsvRecs_valid _ _ _ _ _ _ h
 
 /-- **read_total (XRFF)** for the code after the fixes: all parsed documents -/
 theorem read_total_xrff : ReadTotalXrff { guards := true } := by
